@@ -29,9 +29,13 @@ CONSTANTS Classes,      \* set of class records (see ColumnWriterMC)
                         \* (times='int96' for timestamp columns) | "explicit" (object_encoding named for an object column)
                         \* | "fixed" (fixed_text with a length no value exceeds, for object columns of text / bytes)
                         \* | "hive" (file_scheme='hive': the same table as a directory of part files)
+                        \* | "index" (the column is the frame's NAMED ROW INDEX: stored as a column like any other, and
+                        \*   read back into the index) | "index2" (first level of a two-level MultiIndex)
+                        \* | "rangeidx" (write_index=True over the automatic range index: its labels are stored too)
           Codecs        \* compression option: the layout (page cuts are by uncompressed size) and the cells do not depend on it
 
 NULL == -1
+TdNames == {"td_ns", "td_us", "td_ms", "td_s"}    \* durations: always stored as microseconds (TIME_MICROS)
 NV   == 7                                   \* abstract values 0..6
 
 (* ---- the symbolic column ---- *)
@@ -49,12 +53,19 @@ Cell(inp, i) == IF IsNull(inp.nullpat, i, inp.n) THEN NULL ELSE ValOf(inp.valpat
 HasMissing(inp) == \E i \in 1..inp.n : Cell(inp, i) = NULL
 
 (* ---- options ---- *)
-Optional(inp) == inp.mode = "true" \/ (inp.mode = "infer" /\ inp.cls.dtypeO)
+(* reset_row_idx stores every level of a MultiIndex as a CATEGORICAL column (codes + the level's labels as dictionary),
+   whatever the dtype of the level: for the layout the column is then a categorical one *)
+AsCat(inp) == inp.cls.cat \/ inp.opt = "index2"
+Sentinel(inp) == IF inp.opt = "index2" THEN "CAT" ELSE inp.cls.sentinel
+Bpe8(inp) == IF inp.opt = "index2" THEN 8 ELSE inp.cls.bpe8
+(* a row index of object dtype holding text becomes a column of the string dtype when the index is reset (pandas 3) *)
+DtypeO(inp) == inp.cls.dtypeO /\ inp.opt # "index2" /\ ~(inp.opt = "index" /\ inp.cls.name \in {"obj_str", "obj_str_e"})
+Optional(inp) == inp.mode = "true" \/ (inp.mode = "infer" /\ DtypeO(inp))
 (* a missing cell in a REQUIRED column: representable only as the dtype's in-band sentinel *)
 Rejected(inp) == /\ ~Optional(inp) /\ HasMissing(inp)
-                 /\ inp.cls.sentinel \in {"OBJ", "MASK", "CAT"}  \* None / pd.NA / code -1 have no in-band value
+                 /\ Sentinel(inp) \in {"OBJ", "MASK", "CAT"}  \* None / pd.NA / code -1 have no in-band value
 (* the page budget the caller sets (writer.MAX_PAGE_SIZE): the smallest byte count that fits `rppwant` elements *)
-PerElem8(inp) == inp.cls.bpe8 + (IF Optional(inp) THEN 1 ELSE 0)       \* eighths of a byte per element
+PerElem8(inp) == Bpe8(inp) + (IF Optional(inp) THEN 1 ELSE 0)       \* eighths of a byte per element
 (* never below 9 bytes: the neighbouring int64 column of the replay frame needs one element per page *)
 PageBytes(inp) == LET b == ((inp.rppwant * PerElem8(inp)) + 7) \div 8 IN IF b < 9 THEN 9 ELSE b
 (* _rows_per_page: int(page_size // (bytes_per_element + has_nulls / 8)), in eighths to stay in integers *)
@@ -63,7 +74,7 @@ Rpp(inp) == (PageBytes(inp) * 8) \div PerElem8(inp)
    the chunk holds no non-null cell *)
 ChunkAllNull(inp, start, len) == \A i \in (start + 1)..(start + len) : Cell(inp, i) = NULL
 RppChunk(inp, start, len) ==
-  IF inp.cls.sentinel = "OBJ" /\ ChunkAllNull(inp, start, len)
+  IF Sentinel(inp) = "OBJ" /\ ChunkAllNull(inp, start, len)
   THEN (PageBytes(inp) * 8) \div (32 + (IF Optional(inp) THEN 1 ELSE 0))
   ELSE Rpp(inp)
 WantStats(inp) == inp.stats = "true" \/ (inp.stats = "auto" /\ inp.cls.statsAuto)
@@ -88,9 +99,11 @@ Inputs == [cls : Classes, n : RowCounts, nullpat : NullPats, valpat : ValPats, m
            rppwant : RppWants, v : Versions, rgo : RgOffsets, stats : StatsModes, codec : Codecs, opt : WriteOpts]
 
 Sensible(i) == /\ (i.nullpat # "none" => i.cls.sentinel # "NONE")       \* the dtype can hold a missing cell
-               /\ (i.opt = "int96" => i.cls.sentinel = "NAT" /\ i.cls.name # "td_ns")
+               /\ (i.opt = "int96" => i.cls.sentinel = "NAT" /\ i.cls.name \notin TdNames)
                /\ (i.opt = "explicit" => i.cls.sentinel = "OBJ")
                /\ (i.opt = "fixed" => i.cls.sentinel = "OBJ" /\ i.cls.dtypeO)
+               \* (sampling, not semantics: how the row index is stored does not depend on the codec)
+               /\ (i.opt \in {"index", "index2", "rangeidx"} => i.codec \in {"none", "ZSTD"})
                /\ Rpp(i) >= 1                                           \* page at least one element
                /\ (i.n = 0 => i.nullpat = "none" /\ i.valpat = "const")
 
@@ -121,8 +134,8 @@ BeginChunk ==
          \* categorical statistics are taken over the labels present; NaN/NaT are skipped by max()/min()
          \* an object column holding None cannot be compared by max()/min(): the statistics are silently dropped
          mm == /\ WantStats(inp) /\ vals # {} /\ inp.cls.ordered
-               /\ ~(inp.cls.dtypeO /\ \E i \in Rows(rg) : Cell(inp, i) = NULL)
-     IN cur' = [start |-> rg.start, len |-> rg.len, optional |-> Optional(inp), dict |-> inp.cls.cat,
+               /\ ~(DtypeO(inp) /\ \E i \in Rows(rg) : Cell(inp, i) = NULL)
+     IN cur' = [start |-> rg.start, len |-> rg.len, optional |-> Optional(inp), dict |-> AsCat(inp),
                 pages |-> <<>>, next |-> rg.start,
                 hasmm |-> mm, min |-> IF mm THEN Min(vals) ELSE NULL, max |-> IF mm THEN Max(vals) ELSE NULL,
                 nullcount |-> 0]
@@ -173,7 +186,7 @@ StatsExact == Done => \A g \in DOMAIN rgs :
      /\ rgs[g].hasmm => vals # {} /\ rgs[g].min = Min(vals) /\ rgs[g].max = Max(vals)
      /\ (vals = {} \/ ~inp.cls.ordered) => ~rgs[g].hasmm
 (* a REQUIRED column never silently drops a missing cell: either rejected or an in-band sentinel exists *)
-RejectOrPreserve == Done /\ ~Optional(inp) /\ HasMissing(inp) => inp.cls.sentinel \in {"NAN", "NAT"}
+RejectOrPreserve == Done /\ ~Optional(inp) /\ HasMissing(inp) => Sentinel(inp) \in {"NAN", "NAT"}
 
 (* what an independent reader must decode for row i: "NULL", "SENT" (in-band NaN/NaT) or the value *)
 Decoded(i) == IF Cell(inp, i) # NULL THEN Cell(inp, i)
